@@ -382,7 +382,7 @@ fn cmd_dump(args: &[String]) {
 }
 
 /// One process = one call sequence against the process-wide default mailbox capacity.
-/// ops: set<N> | spawn | spawn0      e.g.  rsv procenum set5,spawn,set2,spawn
+/// ops: set<N> | spawn | spawn<N> (explicit capacity; 0 must panic)      e.g.  rsv procenum set5,spawn,set2,spawn3
 fn cmd_procenum(args: &[String]) {
     let seq = args.get(2).cloned().unwrap_or_default();
     let mut results: Vec<serde_json::Value> = Vec::new();
@@ -396,10 +396,10 @@ fn cmd_procenum(args: &[String]) {
                 Err(e) => format!("Err(other: {e})"),
             };
             results.push(serde_json::json!({"op": op, "result": kind}));
-        } else if op == "spawn" || op == "spawn0" {
+        } else if let Some(explicit) = op.strip_prefix("spawn").map(|n| if n.is_empty() { None } else { Some(n.parse::<usize>().expect("spawnN")) }) {
             // an actor parked in on_start; one client sends 40 tells back to back: as many complete as the mailbox holds
             let mut a = ActorSpec::plain(1);
-            a.cap = if op == "spawn0" { Some(0) } else { None };
+            a.cap = explicit;
             a.on_start = HookSpec { entry_yield: true, steps: vec![Step::Park], out: Outcome::Ok, free: false };
             a.at_start = op != "spawn0";
             let mut steps = Vec::new();
